@@ -15,7 +15,7 @@ FROM_OPS = ['try_from', 'from', 'wfrom', 'sfrom']
 TO_OPS = ['try_to', 'try_to_val', 'to', 'wto', 'sto']
 LIMB_OPS = ['ofls', 'fls', 'cfls', 'wfls', 'sfls']
 UU_OPS = ['uu_try', 'uu_from', 'uu_wfrom', 'uu_sfrom', 'uu_from_uint', 'uu_cfrom_uint', 'uu_try_to', 'uu_to', 'uu_wto', 'uu_sto']
-RULE = ('corpus; full boundary product: every (primitive type x width) at MIN,-1,0,1,MAX and +-(2^k-1, 2^k, 2^k+1) for '
+RULE = ('corpus; exhaustive: every u8 / i8 value into 16 widths and every value of the widths 0..8 into every primitive type (thorough: every u16 / i16 value); full boundary product: every (primitive type x width) at MIN,-1,0,1,MAX and +-(2^k-1, 2^k, 2^k+1) for '
         'k in {bits, bits-1, 7,8,15,16,31,32,63,64,127,128}, q*2^bits+r payload values, through try_from/from/wrapping_from/saturating_from; '
         'Uint->T at T::MAX-1,MAX,MAX+1, 2^k boundaries, sign-bit patterns in the low limb, through try_from(&)/try_from(val)/to/wrapping_to/saturating_to; '
         'limb slices of length 0..LIMBS+2 with zero/non-zero tails and top-limb excess; Uint->Uint on a 16x16 width grid; plus structured random; '
@@ -176,10 +176,34 @@ def _random_part(rng, n):
             yield '%s %d %s %x' % (rng.choice(TO_OPS), bits, t, x)
 
 
+def _exhaustive(tier):
+    """every value of the 8-bit source types into a grid of widths, and every value of the widths 0..8 into every primitive type
+    (thorough: every 16-bit source value too)"""
+    for bits in [0, 1, 2, 3, 4, 5, 6, 7, 8, 9, 12, 16, 63, 64, 65, 128]:
+        for t in ('u8', 'i8'):
+            lo, hi = rng_of(t)
+            for v in range(lo, hi + 1):
+                for op in FROM_OPS:
+                    yield '%s %d %s %s' % (op, bits, t, sx(v))
+    for bits in range(0, 9):
+        for x in range(1 << bits):
+            for t in TYPES:
+                for op in TO_OPS:
+                    yield '%s %d %s %x' % (op, bits, t, x)
+    if tier != 'quick':
+        for bits in (0, 7, 8, 15, 16, 17, 64):
+            for t in ('u16', 'i16'):
+                lo, hi = rng_of(t)
+                for v in range(lo, hi + 1):
+                    for op in ('try_from', 'wfrom'):
+                        yield '%s %d %s %s' % (op, bits, t, sx(v))
+
+
 _gen_boundary = gen
 
 
 def gen(rng, tier):
     yield from _gen_boundary(rng, tier)
+    yield from _exhaustive(tier)
     if tier != 'quick':
         yield from _random_part(rng, 1500000)
